@@ -45,16 +45,23 @@ def apiGenerateWalletAddress (H : List UInt8 → List UInt8) (code : Cell) (ver 
   | some v => address H code v pk (applyOptions (generatedOptions net wc sub))
 
 /-- path 3 — `wallet.GenerateStateInit(…)` marshalled and hashed BY THE CALLER, paired with the caller's workchain as
-`ton.AccountID{int32(workchain), hash}`. (For an unsupported version Go returns the zero `tlb.StateInit{}` and a nil
-error; its marshalling is five zero bits.) -/
-def apiGenerateStateInit (code : Cell) (ver : Nat) (pk : List UInt8) (net : Option Int) (wc : Int) (sub : Option Nat) : Cell :=
+`ton.AccountID{int32(workchain), hash}`. An unsupported version is an error (after the repair; see `apiGenerateStateInitV0`). -/
+def apiGenerateStateInit (code : Cell) (ver : Nat) (pk : List UInt8) (net : Option Int) (wc : Int) (sub : Option Nat) : Outcome Cell :=
   match Version.ofGoIndex? ver with
-  | none => .ordinary [false, false, false, false, false] []
-  | some v => walletStateInit code v pk (applyOptions (generatedOptions net wc sub))
+  | none => .err "unsupported wallet version"
+  | some v => .ok (walletStateInit code v pk (applyOptions (generatedOptions net wc sub)))
+
+/-- `GenerateStateInit` as it was: the error of `newWallet` swallowed — the zero `tlb.StateInit{}` (five zero bits when
+marshalled) and a NIL error for an unsupported version -/
+def apiGenerateStateInitV0 (code : Cell) (ver : Nat) (pk : List UInt8) (net : Option Int) (wc : Int) (sub : Option Nat) : Outcome Cell :=
+  match Version.ofGoIndex? ver with
+  | none => .ok (.ordinary [false, false, false, false, false] [])
+  | some v => .ok (walletStateInit code v pk (applyOptions (generatedOptions net wc sub)))
 
 def apiStateInitAddress (H : List UInt8 → List UInt8) (code : Cell) (ver : Nat) (pk : List UInt8)
     (net : Option Int) (wc : Int) (sub : Option Nat) : Outcome Address := do
-  let h ← (apiGenerateStateInit code ver pk net wc sub).hashO? H
+  let si ← apiGenerateStateInit code ver pk net wc sub
+  let h ← si.hashO? H
   pure { workchain := toI32 wc, hash := h }
 
 /-! ### the message that is sent -/
